@@ -51,6 +51,8 @@ St(k, c) == Trace[k].st[c]
 SentAt(k) == IF Trace[k].ev = "Reset" THEN {}
              ELSE IF Trace[k].ev = "Send" /\ Trace[k].res = "ok" /\ Len(Trace[k].pkt) = 8 THEN sent \cup {Pkt(Trace[k].pkt)}
              ELSE IF Trace[k].ev = "SendTwo" /\ Trace[k].res = "ok" THEN sent \cup {Pkt(x) : x \in SetOf(Trace[k].pkts)}
+             (* packets the chain emitted while executing a receive (sends nested in the callback) *)
+             ELSE IF Trace[k].ev = "Recv" /\ Trace[k].res = "ok" /\ "nested" \in DOMAIN Trace[k] THEN sent \cup {Pkt(x) : x \in SetOf(Trace[k].nested)}
              ELSE sent
 
 B_commits(k, c, S) == { IF x[4] = "P" THEN PacketOf(Tr(x), S) ELSE Unknown(Tr(x)) : x \in SetOf(St(k, c).commits) }
@@ -149,7 +151,23 @@ C04_FailedSendNoChange(k) == (ln(k).ev \in {"Send", "SendTwo"} /\ ln(k).res # "o
 C04_NoStrayEscrow(k) == \A c \in Chains :
    /\ St(k, c).endp = Sum0([d \in Chains \ {c} |-> St(k, c).out[d]], Chains \ {c})
    /\ \A d \in Chains \ {c} : St(k, c).wlock[d] = 0
-C04_SeqOnlyBySend(k) == \A c \in Chains : (seq'[c] # seq[c] \/ cseq'[c] # cseq[c]) => (ln(k).ev \in {"Send", "SendTwo"} /\ ln(k).res = "ok" /\ ActChain(k) = c)
+(* packets the chain emitted while executing an accepted receive (a send nested in the destination callback) *)
+NestedOf(k) == IF ln(k).ev = "Recv" /\ ln(k).res = "ok" /\ "nested" \in DOMAIN ln(k) THEN {Pkt(x) : x \in SetOf(ln(k).nested)} ELSE {}
+C04_SeqOnlyBySend(k) == \A c \in Chains : (seq'[c] # seq[c] \/ cseq'[c] # cseq[c]) =>
+   \/ (ln(k).ev \in {"Send", "SendTwo"} /\ ln(k).res = "ok" /\ ActChain(k) = c)
+   \/ (NestedOf(k) # {} /\ ActChain(k) = c)
+(* a send nested in a receive is numbered and committed like any other: next sequence of its destination, exactly one *)
+(* commitment per emitted packet, the counters advance by the number of packets                                      *)
+C04_NestedSendStep(k) == (ln(k).ev = "Recv" /\ ln(k).res = "ok") =>
+   LET c == ActChain(k)  P == NestedOf(k) IN
+   /\ \A p \in P : p.src = c /\ p.dst \in Chains \ {c} /\ ~(\E q \in commits[c] : T(q) = T(p))
+   /\ \A d \in Chains \ {c} : LET Pd == {p \in P : p.dst = d} IN
+         /\ seq'[c][d] = seq[c][d] + Cardinality(Pd) /\ cseq'[c][d] = cseq[c][d] + Cardinality(Pd)
+         /\ {p.seq : p \in Pd} = seq[c][d]..(seq[c][d] + Cardinality(Pd) - 1)
+   /\ commits'[c] = commits[c] \cup P
+   (* a receive that was asked to forward (call class nestok on a forward transfer) and succeeded did forward *)
+   /\ LET q == PacketOf(TripleOf(k), sent) IN
+        (q.call = "nestok" /\ q.kind = "fwd" /\ ln(k).wrote.code = 0) => (Cardinality(P) = 1 /\ \A p \in P : p.kind = "back" /\ p.amt = q.amt /\ p.dst = q.src)
 
 (* C05 *)
 C05_AckWritten(k) == (ln(k).ev = "Recv" /\ ln(k).res = "ok" /\ TripleOf(k)[2] = ActChain(k)) =>
@@ -195,6 +213,7 @@ JudgeLite(k) ==
      /\ Report(k, "C01.DupRejected", C01_DupRejected(k))
      /\ Report(k, "C01.ReceiptStable", C01_ReceiptStable(k))
      /\ Report(k, "C04.SeqOnlyBySend", C04_SeqOnlyBySend(k))
+     /\ Report(k, "C04.NestedSendStep", C04_NestedSendStep(k))
      /\ Report(k, "C05.AckWritten", C05_AckWritten(k))
      /\ Report(k, "C05.AckStable", C05_AckStable(k))
      /\ Report(k, "C05.CommitRemovedOnlyByAck", C05_CommitRemovedOnlyByAck(k))
@@ -228,6 +247,7 @@ Judge(k) ==
      /\ Report(k, "C04.SendTwoStep", C04_SendTwoStep(k))
      /\ Report(k, "C04.FailedSendNoChange", C04_FailedSendNoChange(k))
      /\ Report(k, "C04.SeqOnlyBySend", C04_SeqOnlyBySend(k))
+     /\ Report(k, "C04.NestedSendStep", C04_NestedSendStep(k))
      /\ Report(k, "C05.AckWritten", C05_AckWritten(k))
      /\ Report(k, "C05.AckStable", C05_AckStable(k))
      /\ Report(k, "C05.CommitRemovedOnlyByAck", C05_CommitRemovedOnlyByAck(k))
